@@ -21,6 +21,7 @@ FLOOR = {"quick": 2000, "thorough": 30000}
 REQUIRED_MONITORS = ("expected_vs_merged_notebook", "expected_vs_merged_generic")
 ASSUMPTIONS = ["cell identity is unambiguous to the differ by construction (ids in 4.5; pairwise dissimilar sources >= 40 chars otherwise; "
                "no duplicates or moves; edits keep similarity)", "expected result never computed with nbdime"]
+OPTIMIZED_SHARDS = (0,)
 NSHARDS = 16
 ACTIONS = ["edit_source", "edit_outputs", "edit_metadata", "bump_ec", "delete", "leave"]
 WORDS = ["alpha", "bravo", "charlie", "delta", "echo", "foxtrot", "golf", "hotel", "india", "juliet", "kilo", "lima", "mike",
@@ -120,7 +121,24 @@ def build_triple(gen, base, pattern, inserts):
 
     def nb(cells):
         return {"nbformat": 4, "nbformat_minor": minor, "metadata": copy.deepcopy(base["metadata"]), "cells": cells}
-    return nb(loc), nb(rem), nb(exp)
+    L, R, E = nb(loc), nb(rem), nb(exp)
+    # document-level changes next to the per-cell ones, each owned by one side: the file was re-saved by a newer
+    # Jupyter (format minor bumped, below 4.5 so that no ids appear), a notebook metadata key was added / changed
+    if r.random() < 0.3:
+        side = r.choice([L, R])
+        if minor < 4 and r.random() < 0.6:
+            side["nbformat_minor"] = E["nbformat_minor"] = r.randrange(minor + 1, 5)
+        else:
+            key = r.choice(["toc", "celltoolbar", "widgets_state", "authors"])
+            if key not in base["metadata"]:
+                val = r.choice([True, "Slideshow", {"depth": 3}, [{"name": "A"}]])
+                side["metadata"][key] = copy.deepcopy(val)
+                E["metadata"][key] = copy.deepcopy(val)
+                if r.random() < 0.4:       # the other side adds a different key
+                    other = R if side is L else L
+                    other["metadata"]["other_tool"] = {"v": 1}
+                    E["metadata"]["other_tool"] = {"v": 1}
+    return L, R, E
 
 
 def touched(pattern, idx, side):
